@@ -350,6 +350,32 @@ def run(ck):
         rc, log = vlib.sh([drv, "-irdir", os.path.join(d, "ir"), "-o", binp, "."], cwd=d, env=L.env(), timeout=1200)
         return d, binp, rc, log
 
+    def rebuild(d, files=None):
+        """build the module in d again with the SAME llgo package cache (optionally after editing files)"""
+        for k, v in (files or {}).items():
+            open(os.path.join(d, k), "w").write(v)
+        binp = os.path.join(d, "p_llgo")
+        if os.path.exists(binp):
+            os.remove(binp)
+        rc, log = vlib.sh([drv, "-irdir", os.path.join(d, "ir"), "-o", binp, "."], cwd=d, env=L.env(), timeout=1200)
+        return binp, rc, log
+
+    def entry_calls(binp):
+        rcx, dis = vlib.sh("objdump -d --no-show-raw-insn %s | awk '/<main>:/,/ret/'" % binp, timeout=120)
+        return re.findall(r"call\s+\w+ <([^>@]+)", dis)
+
+    def check_start(binp, proc, step, replay):
+        """a linked program that uses Python must call Py_Initialize before anything else of the program
+        runs; returns False (and records the violation) when the interpreter is not started or the program dies"""
+        calls = entry_calls(binp)
+        if "Py_Initialize" not in calls or (calls and calls.index("Py_Initialize") != 0):
+            ck.violation("python-not-initialised-before-first-use",
+                         "%s: the entry function of the linked program %s (calls: %s); the program exits %s" % (
+                             step, "does not call Py_Initialize" if "Py_Initialize" not in calls else "calls Py_Initialize too late",
+                             calls[:5], proc.returncode if proc else "?"), dict(replay, step=step, entry_calls=calls))
+            return False
+        return True
+
     files, py, facts = progs.gen_program(ck.seed)
     d, binp, rc, log = build("prog", files, py)
     if rc != 0:
@@ -460,7 +486,9 @@ def run(ck):
     # ================= E: the run =================
     replay_base = {"seed": ck.seed, "exit": p.returncode, "stderr_tail": lines[-15:]}
     val_terms, val_raw, affected = [], [], []
-    if p.returncode != 0 or "MAIN" not in lines:
+    if not check_start(binp, p, "first build (cold package cache)", dict(replay_base, files=files)):
+        pass
+    elif p.returncode != 0 or "MAIN" not in lines:
         ck.violation("python-program-crashed", "the generated Go->Python program exits %d" % p.returncode, dict(replay_base, files=files))
     else:
         mi = lines.index("MAIN")
@@ -566,7 +594,50 @@ def run(ck):
             classes["callrun:arity%d" % len(cr["args"])] += 1
         if vals.get(("attr", 0)) != "I42":
             ck.violation("module-attribute-lookup", "vb.Answer reads %s, want I42" % vals.get(("attr", 0)), replay_base)
+    # ---- the same sources built again with the same package cache: the run must not change ----
+    binp_w, rc_w, log_w = rebuild(d)
+    if rc_w != 0:
+        ck.correspondence_broken("program-rebuild-warm-cache", log_w[-1500:])
+    else:
+        pw = __import__("subprocess").run([binp_w], env=env, stdout=-1, stderr=-1, text=True, errors="replace", timeout=300)
+        rp = {"seed": ck.seed, "exit": pw.returncode, "stderr_tail": pw.stderr.splitlines()[-8:]}
+        if check_start(binp_w, pw, "rebuild of the unchanged generated program (warm package cache)", rp) and pw.stderr != p.stderr:
+            a, b2 = p.stderr.splitlines(), pw.stderr.splitlines()
+            k = next((i for i, (x, y) in enumerate(zip(a, b2)) if x != y), min(len(a), len(b2)))
+            ck.violation("warm-cache-rebuild-behaves-differently",
+                         "unchanged sources rebuilt with the same package cache: exit %d, line %d is `%s`, first build printed `%s`" % (
+                             pw.returncode, k, (b2[k:k + 1] or ["<end>"])[0][:120], (a[k:k + 1] or ["<end>"])[0][:120]), rp)
+    classes["build-step:generated-warm"] += 1
     ck.phase("program run")
+
+    # ================= package cache steps: cold / unchanged / only main edited =================
+    cfiles, expect0, govals0, _ = progs.gen_cache_program(0)
+    cfiles1, expect1, govals1, _ = progs.gen_cache_program(1)
+    dc, binc, rcc, logc = build("pycache", cfiles, py)
+    envc = L.env({"PYTHONPATH": os.path.join(dc, "pylib")})
+    steps = [("step 1: cold package cache", None, expect0), ("step 2: unchanged sources, warm package cache", {}, expect0),
+             ("step 3: only main.go edited, pa/pb/vb from the package cache", {"main.go": cfiles1["main.go"]}, expect1)]
+    for step, edit, expect in steps:
+        if edit is not None:
+            binc, rcc, logc = rebuild(dc, edit)
+        if rcc != 0:
+            ck.correspondence_broken("cache-program-build", {"step": step, "log": logc[-1500:]})
+            break
+        pc = __import__("subprocess").run([binc], env=envc, stdout=-1, stderr=-1, text=True, errors="replace", timeout=120)
+        got = pc.stderr.splitlines()
+        rp = {"step": step, "files": dict(cfiles, **(edit or {})), "exit": pc.returncode, "stderr": got[-8:], "expected": expect}
+        classes["build-step:" + step.split(":")[0].replace(" ", "")] += 1
+        if not check_start(binc, pc, step, rp):
+            break
+        if pc.returncode != 0 or got != expect:
+            k = next((i for i, (x, y) in enumerate(zip(got, expect)) if x != y), min(len(got), len(expect)))
+            key = "module-used-before-import" if "IMPORT vmod" not in got[:1] and pc.returncode == 0 else "cached-package-build-behaves-differently"
+            ck.violation(key, "%s: exit %d, line %d is `%s`, want `%s`" % (step, pc.returncode, k, (got[k:k + 1] or ["<end>"])[0][:120], (expect[k:k + 1] or ["<end>"])[0]), rp)
+            break
+    # what Python must have seen for pb.Conv, according to the model
+    conv_terms = ["((false, ([%s] : list (goval pyval))), PList [PLong (%d); PFloat %d])" % ("; ".join(gv), xw[0], xw[1])
+                  for _, _, gv, xw in (progs.gen_cache_program(0), progs.gen_cache_program(1))]
+    ck.phase("cache steps run")
 
     # ================= the ordinary-variadic prototype (witness program) =================
     d2, bin2, rc2, log2 = build("plainvar", progs.gen_variadic_witness(), py)
@@ -583,7 +654,9 @@ def run(ck):
         p2 = __import__("subprocess").run([bin2], env=L.env({"PYTHONPATH": os.path.join(d2, "pylib")}), stdout=-1, stderr=-1, text=True, errors="replace", timeout=120)
         l2 = p2.stderr.splitlines()
         want = "CALL vmod.f3 T(I1 I2 I3)"
-        if want not in l2:
+        if not check_start(bin2, p2, "witness program (ordinary variadic prototype)", {"stderr": l2[-5:]}):
+            pass
+        elif want not in l2:
             got = [l for l in l2 if l.startswith("CALL")] or ["exit %d: %s" % (p2.returncode, " | ".join(l2[-3:])[:200])]
             ck.violation("py-plain-variadic-prototype-passes-go-slice",
                          "func Echo(args ...*py.Object) called with 3 objects: callee saw %s (the Go slice header is passed by value to PyObject_CallFunctionObjArgs)" % got[0],
@@ -594,7 +667,12 @@ def run(ck):
     else:
         p3 = __import__("subprocess").run([bin3], env=L.env(), stdout=-1, stderr=-1, text=True, errors="replace", timeout=120)
         fl = [l for l in p3.stderr.splitlines() if l.startswith("FIELD")]
-        if fl != ["FIELD -1 9 2 -6"]:
+        if not check_start(bin3, p3, "witness program (py.List only)", {"files": progs.gen_typeleak_witness(), "stderr": p3.stderr.splitlines()[-5:]}):
+            pass
+        elif not fl:
+            ck.violation("python-program-crashed", "the witness program exits %d without printing its FIELD line" % p3.returncode,
+                         {"files": progs.gen_typeleak_witness(), "stderr": p3.stderr.splitlines()[-5:]})
+        elif fl != ["FIELD -1 9 2 -6"]:
             ck.violation("pyval-widens-shared-type-descriptor-later-go-code-miscompiled",
                          "after py.List(int8) in a function compiled earlier, z_set(t, -1) on S{7, 9} then println(t.A, t.B, s.B, ...) prints `%s` (want `FIELD -1 9 2 -6`): int8 is loaded as a 64-bit integer" % (fl or p3.stderr[-200:]),
                          {"files": progs.gen_typeleak_witness(), "stderr": p3.stderr.splitlines()[-5:]})
@@ -609,7 +687,7 @@ def run(ck):
         "plan": (plan_terms, "list_plan", "plan_eqb"),
         "call": (call_terms, "(fun x => call_shape (fst (fst x)) (snd (fst x)) (fst (snd x)) (fst (snd (snd x))) (snd (snd (snd x))))", "ccall_eqb"),
         "loads": (load_terms, "load_mod_syms", "loads_eqb"),
-        "vals": (val_terms, "(fun x : bool * list (goval pyval) => if fst x then py_tuple (snd x) else py_list (snd x))", "pyval_eqb"),
+        "vals": (val_terms + conv_terms, "(fun x : bool * list (goval pyval) => if fst x then py_tuple (snd x) else py_list (snd x))", "pyval_eqb"),
         "capi": (cterms, "(fun x => x)", "pyval_eqb"),
         "capird": (rterms, "(fun x => x)", "(prod_eqb (option_eqb Z.eqb) (option_eqb Z.eqb))"),
     }
@@ -630,7 +708,8 @@ def run(ck):
     for i in res["loads"]:
         ck.correspondence_broken("C19.Model/load_mod_syms vs IR", load_raw[i])
     for i in res["vals"][:5]:
-        ck.violation("value-differs-from-model", "Python saw %s for Go values %s" % (val_raw[i].get("python_saw"), val_raw[i].get("go")), val_raw[i])
+        rw = val_raw[i] if i < len(val_raw) else {"python_saw": "the values expected of pb.Conv", "go": conv_terms[i - len(val_raw)]}
+        ck.violation("value-differs-from-model", "Python saw %s for Go values %s" % (rw.get("python_saw"), rw.get("go")), rw)
     for i in res["capi"]:
         ck.correspondence_broken("C19.Model/c_ops constructors vs CPython", cterms[i])
     for i in res["capird"]:
@@ -644,7 +723,8 @@ def run(ck):
                nontrivial=len(step_terms) + len(call_terms) + len(val_terms), classes=dict(classes),
                ir_conversions=len(step_terms), ir_call_sites=len(call_terms), ir_load_sequences=len(load_terms),
                values_compared_with_model=len(val_terms), values_with_missing_extension=len(affected),
-               go_roundtrips_ok=locals().get("nrt", 0), capi_contract_cases=len(cterms) + len(rterms), capi_extra=extra)
+               go_roundtrips_ok=locals().get("nrt", 0),
+               build_steps_with_shared_package_cache=sum(v for k, v in classes.items() if k.startswith("build-step:")), capi_contract_cases=len(cterms) + len(rterms), capi_extra=extra)
     ck.cov["rule"] = ("T2: conversion/call/list/symbol-loading IR of generated functions reduced syntactically and compared with the model inside Coq; "
                       "E: every value of the boundary+random pools (11 integer types, float32/64 specials, UTF-8 strings incl. NUL, byte slices/arrays, "
                       "complex, mixed lists/tuples, nested objects) handed to CPython, printed canonically by Python and compared with the model; "
